@@ -1304,7 +1304,18 @@ struct FGen {
     if (p.empty() || o.empty() || ints_wr.empty())
       return;
     Stmt call;
-    if (!gen_call(call))
+    bool got = false;
+    if (r.coin()) {
+      // direct recursion
+      std::vector<int> saved = callee_idx;
+      callee_idx.clear();
+      for (int j : saved)
+        if ((*callees)[j].name == f.name)
+          callee_idx.push_back(j);
+      got = !callee_idx.empty() && gen_call(call);
+      callee_idx = saved;
+    }
+    if (!got && !gen_call(call))
       return;
     // the first integer argument of the call becomes t = p - 1
     std::string t;
